@@ -18,9 +18,11 @@ enum Step {
     ClassC,    // accepted Class C downlink in the gap (async+classC), silent windows
     ConfAcked, // confirmed uplink, ACK downlink in RX1
     ConfSilent,
+    Oversize,     // an authentic frame far too long for slow windows, in RX1 or RX2
+    ConfOversize, // the same after a confirmed uplink
 }
 
-const STEPS: [Step; 8] = [Step::Silent, Step::Rx1Hit, Step::Rx2Hit, Step::Invalid, Step::Garbage, Step::ClassC, Step::ConfAcked, Step::ConfSilent];
+const STEPS: [Step; 10] = [Step::Silent, Step::Rx1Hit, Step::Rx2Hit, Step::Invalid, Step::Garbage, Step::ClassC, Step::ConfAcked, Step::ConfSilent, Step::Oversize, Step::ConfOversize];
 
 impl Monitor for C06 {
     fn prop(&self) -> &'static str {
@@ -30,7 +32,7 @@ impl Monitor for C06 {
         vec![gen("single-fault", tier.pick(600, 200_000, 3)), gen("double-fault", tier.pick(60, 30_000, 0)), gen("expiry", tier.pick(300, 50_000, 2))]
     }
     fn rule(&self) -> String {
-        "single-fault: a base history of 3-10 transactions over {silent, RX1 hit, RX2 hit, invalid frame, garbage, Class C downlink, confirmed+ACK, confirmed silent} is first run fault-free to count its K radio calls, then re-run K times with a radio error injected at call k (tx/setup_rx/rx_single/rx_continuous/low_power, nb: TxRequest/RxRequest/CancelRx/Phy), the application carrying on with the next sends; double-fault: two fault positions; expiry: sessions starting at 2^32-4..2^32-1. Every data frame handed to the radio is decoded by the reference codec; counters must be strictly increasing until SessionExpired. Class = (front-end, history shape, fault call kind, fault position class, start class).".into()
+        "single-fault: a base history of 3-10 transactions over {silent, RX1 hit, RX2 hit, invalid frame, garbage, Class C downlink, confirmed+ACK, confirmed silent, oversized frame in RX1/RX2 (also after a confirmed uplink)} is first run fault-free to count its K radio calls, then re-run K times with a radio error injected at call k (tx/setup_rx/rx_single/rx_continuous/low_power, nb: TxRequest/RxRequest/CancelRx/Phy), the application carrying on with the next sends; double-fault: two fault positions; expiry: sessions starting at 2^32-4..2^32-1. Every data frame handed to the radio is decoded by the reference codec; counters must be strictly increasing until SessionExpired. Class = (front-end, history shape, fault call kind, fault position class, start class).".into()
     }
     fn assumptions(&self) -> Vec<String> {
         vec![
@@ -148,7 +150,7 @@ fn run_history(front: Front, reg: regions::Reg, start: u32, steps: &[Step], faul
             script.intrude.push((intr_rng.range(1, 6) as u32, k));
             col.event("nb_intrusions");
         }
-        let confirmed = matches!(st, Step::ConfAcked | Step::ConfSilent);
+        let confirmed = matches!(st, Step::ConfAcked | Step::ConfSilent | Step::ConfOversize);
         fcnt_down += 1;
         let good = net.downlink(&Down { fcnt: fcnt_down, ack: confirmed, port: Some(5), payload: &[i as u8], ..Default::default() });
         match st {
@@ -165,6 +167,16 @@ fn run_history(front: Front, reg: regions::Reg, start: u32, steps: &[Step], faul
             Step::Garbage => {
                 script.rx2.push(rng.bytes(17));
                 fcnt_down -= 1;
+            }
+            Step::Oversize | Step::ConfOversize => {
+                // (at a fast window it fits and is simply accepted; the counter is spent either way)
+                let big = net.downlink(&Down { fcnt: fcnt_down, ack: confirmed, port: Some(6), payload: &[0xAB; 200], ..Default::default() });
+                if (i + seed as usize) % 2 == 0 {
+                    script.rx1.push(big);
+                } else {
+                    script.rx2.push(big);
+                }
+                col.event("oversize_steps");
             }
             Step::ClassC => {
                 if front == Front::AsyncC {
